@@ -91,17 +91,18 @@ type leafCase struct {
 	Gated   bool  `json:"gated"`
 	Explain bool  `json:"explain"`
 
-	mu      sync.Mutex
-	parked  map[int]chan struct{}
-	arrived map[int]bool
-	fired   map[int]string // faults that actually fired
-	loads   map[int]int
-	events  []string
-	open    bool // gates disabled (after the response / free mode)
-	env     *leafEnv
-	taskCtx context.Context // the request's task context, seen by the wrappers
-	onReqG  bool            // a fault panicked on the goroutine that runs leafTaskProcessor.Process
-	ignored int             // not-found outcomes at plan nodes that ignore them
+	mu          sync.Mutex
+	parked      map[int]chan struct{}
+	arrived     map[int]bool
+	fired       map[int]string // faults that actually fired
+	loads       map[int]int
+	events      []string
+	open        bool // gates disabled (after the response / free mode)
+	env         *leafEnv
+	taskCtx     context.Context // the request's task context, seen by the wrappers
+	onReqG      bool            // a fault panicked on the goroutine that runs leafTaskProcessor.Process
+	ignored     int             // not-found outcomes at plan nodes that ignore them
+	metaDBCalls int
 }
 
 const (
@@ -417,6 +418,15 @@ type wDatabase struct {
 func (w *wDatabase) MetaDB() index.MetricMetaDatabase {
 	if w.lc == nil {
 		return w.Database.MetaDB()
+	}
+	// fault point collect-metadb: the second MetaDB() call of a group-by request without condition is the one made
+	// by collectGroupByTagValues inside shardScanStage/groupingStage.Complete() (the first one is the root stage's)
+	w.lc.mu.Lock()
+	w.lc.metaDBCalls++
+	nth := w.lc.metaDBCalls
+	w.lc.mu.Unlock()
+	if out := w.lc.MetaFault["collect-metadb"]; out != "" && nth == 2 {
+		_ = w.lc.inject(-1, "collect-metadb", out, true)
 	}
 	return &wMetaDB{MetricMetaDatabase: w.Database.MetaDB(), lc: w.lc}
 }
@@ -844,7 +854,17 @@ func leafCaseOf(seed int64, idx int, free bool) *leafCase {
 				lc.IndexFault[s] = pt + ":" + outcomes[r.intn(3)]
 			}
 		}
-		if lc.Query == "groupby" && r.intn(5) < 2 {
+		if lc.Query == "groupby" && r.intn(8) == 0 {
+			// A panic inside Stage.Complete() as the ONLY failure of the request, where the leaf does not wait for the
+			// grouping tag values afterwards: no shard has series of the metric (ignored not-found), so nothing fails in
+			// any stage's plan, and the MetaDB() call of the collection in the last scan stage's Complete() panics.
+			lc.Fault = map[int]string{}
+			lc.MetaFault = map[string]string{"collect-metadb": "panic"}
+			lc.IndexFault = map[int]string{}
+			for _, s := range lc.Shards {
+				lc.IndexFault[s] = "series-for-metric:notfound"
+			}
+		} else if lc.Query == "groupby" && r.intn(5) < 2 {
 			// the collection of the grouping tag values runs after the last scan/grouping stage, outside any stage
 			lc.MetaFault["collect-tag-values"] = []string{"err", "err", "notfound", "panic"}[r.intn(4)]
 			lc.Short = true
@@ -1174,7 +1194,7 @@ func judgeLeaf(out *leafOutcome) (vs []viol, facts map[string]int) {
 		if f, ok := out.Fired[s]; ok {
 			failed = append(failed, fmt.Sprintf("shard %d (%s)", s, f))
 			facts["leaf_fault_fired_"+f]++
-		} else if leafSeries[s]+1 > leafLimit && shardScanRan(out, s) {
+		} else if tooManySeries(out, s) {
 			failed = append(failed, fmt.Sprintf("shard %d (too many series: %d > limit %d)", s, leafSeries[s]+1, leafLimit))
 			facts["leaf_fault_fired_too-many-series"]++
 		}
@@ -1210,7 +1230,7 @@ func judgeLeaf(out *leafOutcome) (vs []viol, facts map[string]int) {
 		// (The end times in the stage stats are taken before the count-down and prove nothing under preemption.)
 		failedSet := map[int]bool{}
 		for _, s := range lc.Shards {
-			if _, ok := out.Fired[s]; ok || (leafSeries[s]+1 > leafLimit && shardScanRan(out, s)) {
+			if _, ok := out.Fired[s]; ok || (tooManySeries(out, s)) {
 				failedSet[s] = true
 			}
 		}
@@ -1276,6 +1296,15 @@ func hasFired(out *leafOutcome, what string) bool {
 		}
 	}
 	return false
+}
+
+// tooManySeries: the shard holds more series than the limit allows, its scan got as far as the series limit check
+// and the series lookup was not answered with an (ignored) not-found by the harness.
+func tooManySeries(out *leafOutcome, s int) bool {
+	if strings.HasSuffix(out.Case.IndexFault[s], ":notfound") {
+		return false
+	}
+	return leafSeries[s]+1 > leafLimit && shardScanRan(out, s)
 }
 
 func shardScanRan(out *leafOutcome, s int) bool {
